@@ -38,18 +38,47 @@ def _classes(p):
     )
 
 
-def make_world(p, rule, config):
+def _instantiate_policy(ci):
+    return ci.module.name.startswith("indi.device.properties.") or ci.qualname == "indi.device.events.EventSourceDefinition"
+
+
+def make_world(p, rule, config, it=None):
+    """Abstract switch vector of three elements, built by abstractly running the real constructors
+    (definition classes, then the instance classes), so that any field a constructor sets exists."""
     sv, sw = _classes(p)
-    vdef = Obj(None, {"rule": Const(rule), "name": Const("SW")}, label="vdef")
-    vec = Obj(sv, {"_definition": vdef, "_enabled": Const(True), "_state": Const("Ok")}, label="vector")
-    els = []
-    for k, n, v in zip(KEYS, NAMES, config):
-        edef = Obj(None, {"name": Const(n), "label": Const(n)}, label=f"def{n}")
-        e = Obj(sw, {"_vector": vec, "_definition": edef, "_value": Const(v), "_enabled": Const(True)}, label=f"sw{n}")
-        els.append(e)
-    vec.attrs["_elements"] = Dct([(Const(k), e) for k, e in zip(KEYS, els)])
-    vec.attrs["_elements_by_name"] = Dct([(Const(n), e) for n, e in zip(NAMES, els)])
-    return vec, els
+    if it is None:
+        raise Undecided("make_world needs the interpreter")
+    from ..absint import Frame
+    fr = Frame(None, sv.module, {})
+    saved = dict(it.opts)
+    it.opts["instantiate"] = _instantiate_policy
+    base_inline = it.opts.get("inline", lambda fi, node: False)
+    it.opts["inline"] = lambda fi, node: fi.module.name.startswith("indi.device.properties.") or fi.module.name == "indi.device.events" or base_inline(fi, node)
+    it.opts["closed_world"] = True
+    try:
+        dsw = p.cls("indi.device.properties.definition.elements.Switch")
+        dsv = p.cls("indi.device.properties.definition.vectors.SwitchVector")
+        edefs = Dct()
+        for k, n, v in zip(KEYS, NAMES, config):
+            ed = it.apply(Cls(dsw), [], {"name": Const(n), "default": Const(v)}, [], None, fr, False)
+            edefs.set(Const(k), ed)
+        vdef = it.apply(Cls(dsv), [], {"name": Const("SW"), "rule": Const(rule), "elements": edefs}, [], None, fr, False)
+        drv = Obj(None, label="<driver>")
+        gdef = Obj(None, {"name": Const("GRP"), "enabled": Const(True)}, label="gdef")
+        grp = Obj(p.cls("indi.device.properties.instance.group.Group"), {"_device": drv, "_definition": gdef, "_enabled": Const(True)}, label="group")
+        vec = it.apply(Cls(sv), [], {"group": grp, "definition": vdef}, [], None, fr, False)
+        if not isinstance(vec, Obj):
+            raise Undecided("switch vector construction did not yield an abstract object")
+        els = [vec.attrs["_elements"].get(Const(k)) for k in KEYS]
+        for e, n in zip(els, NAMES):
+            e.label = f"sw{n}"
+        vec.label = "vector"
+        # construction events are not part of the operation under analysis
+        del it.events[:]
+        return vec, els
+    finally:
+        it.opts.clear()
+        it.opts.update(saved)
 
 
 def oracle_step(rule, config, idx, written):
@@ -102,7 +131,7 @@ def rule_step(ctx):
                     holder = {}
 
                     def run(it: Interp):
-                        vec, els = make_world(p, rule, config)
+                        vec, els = make_world(p, rule, config, it)
                         holder["els"] = els
                         it.els = els
                         return it.run_function(Fn(setter, els[idx]), [Const(written)], {})
@@ -148,6 +177,80 @@ def rule_step(ctx):
     ctx.exhaustive_domains.append("3 rules x 2^3 configurations x 3 written switches x {On, Off, invalid, None}")
 
 
+def _aux_state(vec, els):
+    """Everything the vector/elements hold besides the switch values and the construction-time links."""
+    skip = {"_value", "_vector", "_definition", "_enabled", "_group", "_elements", "_elements_by_name", "_state"}
+    out = []
+    for o in [vec] + list(els):
+        for k, v in sorted(o.attrs.items()):
+            if k in skip or k.startswith("__"):
+                continue
+            out.append((o.label, k, show(v)))
+    return tuple(out)
+
+
+def rule_reach(ctx):
+    """Reachable-state closure under single writes: every transition must follow the rule table.  Needed because the
+    rule function may keep auxiliary state (e.g. a cached selection); the one-step check only sees constructed states."""
+    p = ctx.p
+    sv, sw = _classes(p)
+    setter = sw.find_setter("value")
+    pol = _inline_policy(p)
+    ops = [(i, w) for i in range(3) for w in (ON, OFF)]
+    total_states = total_trans = 0
+    bad = 0
+    max_depth = 4 if ctx.tier == "thorough" else 3
+    for rule in ("OneOfMany", "AtMostOne", "AnyOfMany"):
+        seen = {}
+        frontier = []
+        for config in itertools.product((ON, OFF), repeat=3):
+            frontier.append((config, ()))
+        while frontier:
+            config, seq = frontier.pop(0)
+            for op in ([None] if not seq and (config, ()) not in seen else []) + ops:
+                cand = seq + ((op,) if op is not None else ())
+                if len(cand) > max_depth:
+                    continue
+
+                def run(it: Interp, config=config, cand=cand):
+                    vec, els = make_world(p, rule, config, it)
+                    it.els, it.vec = els, vec
+                    it.trace = [(_state(els), _aux_state(vec, els))]
+                    for (idx, w) in cand:
+                        it.run_function(Fn(setter, els[idx]), [Const(w)], {})
+                        it.trace.append((_state(els), _aux_state(vec, els)))
+                    return Const(None)
+
+                paths = explore(p, run, {"inline": pol, "assert_forks": True, "max_depth": 10})
+                ctx.paths_enumerated += len(paths)
+                if len(paths) != 1 or paths[0].outcome != "return":
+                    why = f"{len(paths)} paths" if len(paths) != 1 else f"raises {show(paths[0].value)[:40]}"
+                    ctx.undecided("C09.REACH", setter.short, f"write sequence {cand} from {config} under {rule} is not decided by constant evaluation ({why})", fi=setter)
+                    bad += 1
+                    continue
+                tr = paths[0].interp.trace
+                if cand:
+                    pre, post = tr[-2][0], tr[-1][0]
+                    idx, w = cand[-1]
+                    total_trans += 1
+                    exp = oracle_step(rule, pre, idx, w)
+                    if post != exp:
+                        ctx.violated("C09.REACH", setter.short, f"rule={rule}: from initial {dict(zip(NAMES, config))} the writes {[(NAMES[i], w_) for i, w_ in cand]} reach {dict(zip(NAMES, pre))} and then leave {dict(zip(NAMES, post))}; the rule prescribes {dict(zip(NAMES, exp))}", fi=setter, text=f"reach:{rule}:{w}", witness=f"{rule}: {config} then {[(NAMES[i], w_) for i, w_ in cand]}")
+                        bad += 1
+                        continue
+                key = tr[-1]
+                if key not in seen:
+                    seen[key] = cand
+                    if cand or True:
+                        frontier.append((config, cand)) if cand else None
+        total_states += len(seen)
+    ctx.counters["C09.REACH:reachable (values, auxiliary) states"] = total_states
+    ctx.counters["C09.REACH:transitions checked"] = total_trans
+    if not bad:
+        ctx.holds("C09.REACH", setter.short, f"{total_states} reachable (values, auxiliary-state) states, {total_trans} transitions (depth <= {max_depth}) all follow the rule table", fi=setter)
+    ctx.exhaustive_domains.append("reachable-state closure per rule from all 8 initial configurations (sequence depth bounded)")
+
+
 def rule_bool(ctx):
     p = ctx.p
     sv, sw = _classes(p)
@@ -158,7 +261,7 @@ def rule_bool(ctx):
     ok = True
     for val, exp in ((Const(True), ON), (Const(False), OFF), (Const(1), ON), (Const(0), OFF)):
         def run(it: Interp):
-            vec, els = make_world(p, "AnyOfMany", (OFF, OFF, OFF))
+            vec, els = make_world(p, "AnyOfMany", (OFF, OFF, OFF), it)
             return it.run_function(Fn(f, els[0]), [val], {})
 
         paths = explore(p, run, {"inline": lambda fi, node: False})
@@ -170,7 +273,7 @@ def rule_bool(ctx):
     ok = True
     for v, exp in ((ON, True), (OFF, False)):
         def run(it: Interp):
-            vec, els = make_world(p, "AnyOfMany", (v, OFF, OFF))
+            vec, els = make_world(p, "AnyOfMany", (v, OFF, OFF), it)
             return it.run_function(Fn(g, els[0]), [], {})
 
         paths = explore(p, run, {"inline": _inline_policy(p)})
@@ -208,7 +311,7 @@ def rule_bulk(ctx):
                         arg = Const(NAMES[sel[0]]) if single else Lst([Const(NAMES[i]) for i in sel])
 
                         def run(it: Interp):
-                            vec, els = make_world(p, rule, config)
+                            vec, els = make_world(p, rule, config, it)
                             it.els = els
                             return it.run_function(Fn(fn, vec), [arg], {})
 
@@ -236,7 +339,7 @@ def rule_bulk(ctx):
                             bad += 1
             # unknown name
             def run(it: Interp):
-                vec, els = make_world(p, rule, config)
+                vec, els = make_world(p, rule, config, it)
                 it.els = els
                 return it.run_function(Fn(f, vec), [Lst([Const("A"), Const("NOPE")])], {})
 
@@ -252,7 +355,7 @@ def rule_bulk(ctx):
     ok = True
     for config in itertools.product((ON, OFF), repeat=3):
         def run(it: Interp):
-            vec, els = make_world(p, "AnyOfMany", config)
+            vec, els = make_world(p, "AnyOfMany", config, it)
             return it.run_function(Fn(g, vec), [], {})
 
         paths = explore(p, run, {"inline": pol})
@@ -305,6 +408,7 @@ def rule_gate(ctx):
 
 RULES = [
     ("C09.STEP", rule_step, "induction step: every single write leaves the vector in the state the rule table prescribes; invalid values raise; publication after stores"),
+    ("C09.REACH", rule_reach, "closure of reachable (values, auxiliary state) states under single writes: every transition follows the rule table"),
     ("C09.BOOL", rule_bool, "bool_value maps to On/Off through the value property"),
     ("C09.BULK", rule_bulk, "selected_value(s) setters = rule-consistent sequence of single writes over all elements"),
     ("C09.GATE", rule_gate, "no raw store to _value outside setter / rule function / __init__ / reset_*; reset_* unreachable from the operations"),
